@@ -95,7 +95,8 @@ def _mx(*xs):
 @st.composite
 def schemes(draw, algos):
     algo = draw(st.sampled_from(list(algos)))
-    s = dict(algo=algo, dt=draw(st.sampled_from(DTS)), alpha=0.5, beta=0.25, gamma=0.5, defaults=False)
+    s = dict(algo=algo, dt=draw(st.sampled_from(DTS)), alpha=0.5, beta=0.25, gamma=0.5, defaults=False,
+             byname=draw(st.integers(0, 3)) == 0)
     if algo == "parabolic":
         s["alpha"] = draw(st.sampled_from(ALPHAS_PAR))
         s["defaults"] = draw(st.integers(0, 5)) == 0
@@ -424,11 +425,13 @@ def set_scheme(simu, s):
             return (s["dt"], 0.25, 0.5, 0.5)
         simu.Solver_Set_Parabolic_Algorithm(s["dt"], s["alpha"])
         return (s["dt"], 0.25, 0.5, s["alpha"])
+    # AlgoType is a str-Enum and the setter accepts the scheme by its name as well (observed: bit-identical runs)
+    algo = a if s.get("byname") else AlgoType(a)
     if s["defaults"]:
         # documented defaults: beta = 1/4, gamma = 1/2 (alpha default 1/2 is passed explicitly for hht)
-        simu.Solver_Set_Hyperbolic_Algorithm(s["dt"], AlgoType(a), alpha=s["alpha"])
+        simu.Solver_Set_Hyperbolic_Algorithm(s["dt"], algo, alpha=s["alpha"])
         return cs.effective_params(a, s["dt"], s["alpha"], 0.25, 0.5)
-    simu.Solver_Set_Hyperbolic_Algorithm(s["dt"], AlgoType(a), s["beta"], s["gamma"], s["alpha"])
+    simu.Solver_Set_Hyperbolic_Algorithm(s["dt"], algo, s["beta"], s["gamma"], s["alpha"])
     return cs.effective_params(a, s["dt"], s["alpha"], s["beta"], s["gamma"])
 
 
